@@ -10,6 +10,25 @@ let () =
       let exo =
         if Caseio.has c "B" then Some (lmx_of_mat (Caseio.get_mat c "B"), lmx_of_mat (Caseio.get_mat c "c")) else None in
       Caseio.out_begin c.id;
+      if c.kind = "sequence" then begin
+        (* every call of the sequence against the STATELESS model on that call's inputs and that call's live matrices *)
+        let nsteps = Caseio.get_int c "nsteps" in
+        for s = 0 to nsteps - 1 do
+          let g name = Caseio.get_mat c (Printf.sprintf "%s_%d" name s) in
+          let sf name = Printf.sprintf "%s_%d" name s in
+          let f = lmx_of_mat (g "F") and q = lmx_of_mat (g "Q") in
+          let exo = if Caseio.has c (sf "B") then Some (lmx_of_mat (g "B"), lmx_of_mat (g "c")) else None in
+          let means = g "means" and covs = g "covs" in
+          let n = Array.length means and k = mat_cols means in
+          let prev = ((lmx_of_mat means, blocks covs n k), lvec_of_col (g "weights")) in
+          let old = ((lmx_of_mat (g "old_means"), blocks (g "old_covs") n k), lvec_of_col (g "old_weights")) in
+          let ((rm, rc), rw) = c02_run fops (nat_of_int n) (nat_of_int k) f q exo false false false prev old in
+          Caseio.out_int (sf "components") (List.length rc);
+          Caseio.out_mat_shape (sf "means") n k (mat_of_lmx rm);
+          List.iteri (fun i p -> Caseio.out_mat (sf (Printf.sprintf "cov%d" i)) (mat_of_lmx p)) rc;
+          Caseio.out_mat (sf "weights") (col_of_lvec rw)
+        done
+      end else
       if c.kind = "propagate" then begin
         let cur = Caseio.get_mat c "cur" and old = Caseio.get_mat c "old" in
         let n = Array.length cur and k = mat_cols cur in
